@@ -1,6 +1,6 @@
 (* C15 property theorems: statements only, each closed by `exact`, with Print Assumptions. *)
 From Coq Require Import ZArith QArith Qabs List Bool Lia Lqa.
-From QE Require Import Base.Num C15.Model C15.Proofs C15.Proofs2.
+From QE Require Import Base.Num C15.Model C15.Proofs C15.Proofs2 C15.Proofs3.
 Import ListNotations.
 
 (* compute_fixed_point(method='iteration') on any space V with a pseudo-metric dist (the code's error functional
@@ -83,6 +83,41 @@ Proof.
   split; [|vm_compute; reflexivity].
   simpl. split; [lia|]. exists 6%nat. split; [reflexivity|]. split; [lia|]. exists 2%nat. split; reflexivity.
 Qed.
+
+(* imitation-game method, any operator, any predicate, EVERY arithmetic instance: the run always ends (fuel = max_iter
+   suffices) and the returned flag is the predicate evaluated AT the returned point; a false flag means max_iter was hit *)
+Theorem C15_ig_converged_residual : forall (T : Type) (NT : Num T) (tol_piv tol_ratio_diff : T)
+    (Top : list T -> list T) (is_approx_fp : list T -> bool) (v : list T) (max_iter : Z),
+  (1 <= max_iter)%Z ->
+  exists x cv it, compute_fixed_point_ig tol_piv tol_ratio_diff Top is_approx_fp v max_iter = Some (x, cv, it) /\
+    cv = is_approx_fp x /\ (1 <= it)%Z /\ (cv = false -> (max_iter <= it)%Z).
+Proof. exact (@ig_converged_residual). Qed.
+Print Assumptions C15_ig_converged_residual.
+
+(* compute_fixed_point(method='imitation_game') without warning: max|T(v) - v| <= error_tol at the returned v *)
+Theorem C15_igm_converged_residual : forall (T : Type) (NT : Num T) (tol_piv tol_ratio_diff : T) (nabs : T -> T)
+    (Top : list T -> list T) (v : list T) (tol : T) (max_iter : Z) (x : list T) (it : Z),
+  compute_fixed_point_igm tol_piv tol_ratio_diff nabs Top v tol max_iter = Some (x, true, it) ->
+  nleb (supdist nabs (Top x) x) tol = true.
+Proof. exact (@igm_converged_residual). Qed.
+Print Assumptions C15_igm_converged_residual.
+
+(* mclennan_tourky end to end (exact rationals): converged = true implies the epsilon-Nash inequalities at the
+   returned profile, for every player and every pure deviation (entries of the payoff vector = expected payoffs) *)
+Theorem C15_mt_converged_eps_nash : forall (tol_piv tol_ratio_diff : Q) (g : list (list Q)) (nums : list nat)
+    (x_init : list Q) (eps br_tol : Q) (max_iter : Z) (x : list Q) (it : Z),
+  mclennan_tourky tol_piv tol_ratio_diff g nums x_init eps br_tol max_iter = Some (x, true, it) ->
+  let prof := unflatten nums x in
+  let pv i := payoff_vector (nth i g []) (opponents i prof) in
+  (forall i, (i < length g)%nat -> pv i <> []) ->
+  forall i, (i < length g)%nat -> forall u, In u (pv i) -> (u - dot (nth i prof []) (pv i) <= eps)%Q.
+Proof. exact mt_converged_eps_nash. Qed.
+Print Assumptions C15_mt_converged_eps_nash.
+
+Example ex_mt_run :   (* matching pennies from the pure profile (0,0), epsilon = 1/100: converges to the uniform profile *)
+  exists x it, mclennan_tourky (1 # 10000000000)%Q (1 # 1000000000000000)%Q [[1; -1; -1; 1]; [-1; 1; 1; -1]] [2; 2]%nat
+                 [1; 0; 1; 0] (1 # 100) (1 # 100000000) 200 = Some (x, true, it) /\ (2 <= it)%Z.
+Proof. do 2 eexists. vm_compute. split; [reflexivity|discriminate]. Qed.
 
 Example ex_mt_check :   (* matching pennies at the uniform profile, epsilon = 0 *)
   is_epsilon_nash (T := Q) [[1; -1; -1; 1]; [-1; 1; 1; -1]] [2; 2]%nat [1 # 2; 1 # 2; 1 # 2; 1 # 2] 0 = true /\
